@@ -343,6 +343,123 @@ func init() {
 	intrinsics["internal/stringslite.Index"] = nil
 	delete(intrinsics, "internal/stringslite.Index")
 
+	// ---- errors built with formatting: an opaque non-nil error whose text is not inspected
+	intrinsics["fmt.Errorf"] = func(it *Interp, fr *frame, args []Value) Value { return it.opaqueError() }
+	intrinsics["github.com/go-ap/errors.Errorf"] = func(it *Interp, fr *frame, args []Value) Value { return it.opaqueError() }
+	intrinsics["github.com/go-ap/errors.Newf"] = func(it *Interp, fr *frame, args []Value) Value {
+		// returns *errors.Err: a fresh zero value of the struct
+		return it.newOf(fr, "github.com/go-ap/errors", "Err")
+	}
+	intrinsics["github.com/go-ap/errors.Annotatef"] = func(it *Interp, fr *frame, args []Value) Value {
+		return it.newOf(fr, "github.com/go-ap/errors", "Err")
+	}
+
+	// ---- reflect (subset the package uses), answered from go/types
+	intrinsics["reflect.TypeOf"] = func(it *Interp, fr *frame, args []Value) Value {
+		x := args[0].(Iface)
+		if x.t == nil {
+			return Iface{}
+		}
+		return it.rtype(x.t)
+	}
+	intrinsics["reflect.TypeFor"] = func(it *Interp, fr *frame, args []Value) Value {
+		targs := it.curCallee.TypeArgs()
+		if len(targs) != 1 {
+			it.abort("unmodelled", "reflect.TypeFor without type argument")
+		}
+		return it.rtype(it.p.tt.Of(targs[0]))
+	}
+	intrinsics["(*reflect.rtype).ConvertibleTo"] = func(it *Interp, fr *frame, args []Value) Value {
+		a := it.rtypeArg(fr, args[0])
+		u := args[1].(Iface)
+		if u.t == nil {
+			it.goPanicf(fr, "reflect: nil type passed to Type.ConvertibleTo")
+		}
+		b := it.rtypeArg(fr, u.v)
+		return mkBool(types.ConvertibleTo(a.t, b.t))
+	}
+	intrinsics["(*reflect.rtype).Elem"] = func(it *Interp, fr *frame, args []Value) Value {
+		a := it.rtypeArg(fr, args[0])
+		if a.elem == nil {
+			it.goPanicf(fr, "reflect: Elem of invalid type %s", a.name)
+		}
+		return it.rtype(a.elem)
+	}
+	intrinsics["(*reflect.rtype).Kind"] = func(it *Interp, fr *frame, args []Value) Value {
+		return mkConst(64, uint64(reflectKind(it.rtypeArg(fr, args[0]))))
+	}
+	intrinsics["(*reflect.rtype).String"] = func(it *Interp, fr *frame, args []Value) Value {
+		return mkStr(types.TypeString(it.rtypeArg(fr, args[0]).t, func(p *types.Package) string { return p.Name() }))
+	}
+	intrinsics["reflect.ValueOf"] = func(it *Interp, fr *frame, args []Value) Value {
+		return it.reflectValue(args[0].(Iface))
+	}
+	intrinsics["(reflect.Value).IsValid"] = func(it *Interp, fr *frame, args []Value) Value {
+		_, ok := reflectPayload(args[0])
+		return mkBool(ok)
+	}
+	intrinsics["(reflect.Value).Kind"] = func(it *Interp, fr *frame, args []Value) Value {
+		x, ok := reflectPayload(args[0])
+		if !ok {
+			return mkConst(64, 0)
+		}
+		return mkConst(64, uint64(reflectKind(x.t)))
+	}
+	intrinsics["(reflect.Value).IsNil"] = func(it *Interp, fr *frame, args []Value) Value {
+		x, ok := reflectPayload(args[0])
+		if !ok {
+			it.goPanicf(fr, "reflect: call of reflect.Value.IsNil on zero Value")
+		}
+		switch v := x.v.(type) {
+		case Ptr:
+			return mkBool(v.cell == nil && v.sarr == nil)
+		case Slice:
+			return mkBool(v.obj == nil)
+		case *MapObj:
+			return mkBool(v == nil)
+		case FuncV:
+			return mkBool(v.fn == nil && v.bi == nil)
+		case Iface:
+			return mkBool(v.t == nil)
+		}
+		it.goPanicf(fr, "reflect: call of reflect.Value.IsNil on %s Value", x.t.name)
+		return nil
+	}
+	intrinsics["(reflect.Value).Convert"] = func(it *Interp, fr *frame, args []Value) Value {
+		x, ok := reflectPayload(args[0])
+		if !ok {
+			it.goPanicf(fr, "reflect: call of reflect.Value.Convert on zero Value")
+		}
+		u := args[1].(Iface)
+		if u.t == nil {
+			it.goPanicf(fr, "reflect: nil type passed to Value.Convert")
+		}
+		to := it.rtypeArg(fr, u.v)
+		if !types.ConvertibleTo(x.t.t, to.t) {
+			it.goPanicf(fr, "reflect.Value.Convert: value of type %s cannot be converted to type %s", x.t.name, to.name)
+		}
+		v := x.v
+		switch {
+		case to.kind == KPtr && x.t.kind == KPtr:
+			if p := v.(Ptr); p.cell != nil {
+				it.checkView(fr, p, to)
+			}
+		case to.kind == x.t.kind && (to.kind == KString || to.kind == KSlice || to.kind == KStruct || to.kind == KBool || to.kind == KMap):
+		case to.kind == KInt && x.t.kind == KInt:
+			v = mkResize(v.(*Term), to.w, x.t.signed)
+		default:
+			it.abort("unmodelled", fmt.Sprintf("reflect.Value.Convert %s -> %s", x.t.name, to.name))
+		}
+		return it.reflectValue(Iface{t: to, v: v})
+	}
+	intrinsics["(reflect.Value).Interface"] = func(it *Interp, fr *frame, args []Value) Value {
+		x, ok := reflectPayload(args[0])
+		if !ok {
+			it.goPanicf(fr, "reflect: call of reflect.Value.Interface on zero Value")
+		}
+		return Iface{t: x.t, v: x.v}
+	}
+
 	// ---- fastjson header puns
 	intrinsics["github.com/valyala/fastjson.b2s"] = func(it *Interp, fr *frame, args []Value) Value {
 		s := args[0].(Slice)
@@ -621,4 +738,138 @@ func (it *Interp) freezeAll(fr *frame) {
 			walk(p)
 		}
 	}
+}
+
+// opaqueError returns a non-nil error value (*errors.errorString) with a fixed text.
+func (it *Interp) opaqueError() Value {
+	pkg := it.p.prog.ImportedPackage("errors")
+	if pkg == nil {
+		panic("package errors not loaded")
+	}
+	st := pkg.Type("errorString").Type()
+	ti := it.p.tt.Of(st)
+	pt := it.p.tt.Of(types.NewPointer(st))
+	cell := new(Value)
+	sv := it.zero(ti).(StructV)
+	sv.f[0] = mkStr("error (text not modelled)")
+	*cell = sv
+	errT := it.p.tt.Of(types.Universe.Lookup("error").Type())
+	return Iface{t: pt, v: Ptr{cell: cell, obj: it.newObj(ti.size, "error")}, itab: errT}
+}
+
+// newOf returns a pointer to a zero value of the named struct type.
+func (it *Interp) newOf(fr *frame, pkgPath, name string) Value {
+	pkg := it.p.prog.ImportedPackage(pkgPath)
+	if pkg == nil || pkg.Type(name) == nil {
+		it.abort("unmodelled", "type "+pkgPath+"."+name+" not loaded")
+	}
+	ti := it.p.tt.Of(pkg.Type(name).Type())
+	cell := new(Value)
+	*cell = it.zero(ti)
+	return Ptr{cell: cell, obj: it.newObj(ti.size, name)}
+}
+
+func (it *Interp) rtype(ti *TInfo) Value {
+	pkg := it.p.prog.ImportedPackage("reflect")
+	if pkg == nil || pkg.Type("rtype") == nil {
+		it.abort("unmodelled", "package reflect not loaded")
+	}
+	pt := it.p.tt.Of(types.NewPointer(pkg.Type("rtype").Type()))
+	return Iface{t: pt, v: RTypeV{ti}, itab: it.p.tt.Of(pkg.Type("Type").Type())}
+}
+
+func (it *Interp) rtypeArg(fr *frame, v Value) *TInfo {
+	r, ok := v.(RTypeV)
+	if !ok {
+		it.abort("unmodelled", fmt.Sprintf("reflect.Type backed by %T", v))
+	}
+	return r.ti
+}
+
+// reflectValue builds a reflect.Value whose ptr field addresses a cell holding the boxed interface.
+func (it *Interp) reflectValue(x Iface) Value {
+	pkg := it.p.prog.ImportedPackage("reflect")
+	if pkg == nil || pkg.Type("Value") == nil {
+		it.abort("unmodelled", "package reflect not loaded")
+	}
+	sv := it.zero(it.p.tt.Of(pkg.Type("Value").Type())).(StructV)
+	if x.t == nil {
+		return sv
+	}
+	cell := new(Value)
+	*cell = x
+	sv.f[1] = Ptr{cell: cell, obj: it.newObj(16, "reflect.Value")}
+	sv.f[2] = mkConst(64, 1)
+	return sv
+}
+
+func reflectPayload(v Value) (Iface, bool) {
+	sv := v.(StructV)
+	p, ok := sv.f[1].(Ptr)
+	if !ok || p.cell == nil {
+		return Iface{}, false
+	}
+	x, ok := (*p.cell).(Iface)
+	return x, ok
+}
+
+func reflectKind(ti *TInfo) int {
+	switch ti.kind {
+	case KBool:
+		return 1
+	case KInt:
+		b := ti.t.Underlying().(*types.Basic)
+		switch b.Kind() {
+		case types.Int:
+			return 2
+		case types.Int8:
+			return 3
+		case types.Int16:
+			return 4
+		case types.Int32:
+			return 5
+		case types.Int64:
+			return 6
+		case types.Uint:
+			return 7
+		case types.Uint8:
+			return 8
+		case types.Uint16:
+			return 9
+		case types.Uint32:
+			return 10
+		case types.Uint64:
+			return 11
+		case types.Uintptr:
+			return 12
+		}
+	case KFloat:
+		if ti.f32 {
+			return 13
+		}
+		return 14
+	case KComplex:
+		return 16
+	case KArray:
+		return 17
+	case KChan:
+		return 18
+	case KFunc:
+		return 19
+	case KIface:
+		return 20
+	case KMap:
+		return 21
+	case KPtr:
+		return 22
+	case KSlice:
+		return 23
+	case KString:
+		return 24
+	case KStruct:
+		return 25
+	case KUnsafePointer:
+		return 26
+	}
+	return 0
 }
